@@ -37,6 +37,80 @@ int verif_fprintf(FILE *f, const char *fmt, ...);
 
 #include "client.c"
 
+/* ---- op `main`: the REAL main() of iodine.c (option handling, start-up validation) up to client_handshake();
+ * everything that touches the operating system is substituted, every substituted call is logged */
+#include <setjmp.h>
+#include <grp.h>
+#include <pwd.h>
+#include <netdb.h>
+#include <getopt.h>
+#include <stdbool.h>
+#include <sys/param.h>
+#include <fcntl.h>
+struct passwd;
+int verif_getopt(int argc, char *const argv[], const char *optstring);
+char *verif_getenv(const char *name);
+struct passwd *verif_getpwnam(const char *name);
+int verif_setgroups(size_t n, const gid_t *g);
+int verif_setgid(gid_t g);
+int verif_setuid(uid_t u);
+void verif_check_superuser(void);
+char *verif_get_resolvconf_addr(void);
+int verif_get_addr(char *host, int port, int family, int flags, struct sockaddr_storage *out);
+int verif_open_dns_from_host(char *host, int port, int family, int flags);
+void verif_close_dns(int fd);
+void verif_do_chroot(char *dir);
+void verif_do_setcon(char *ctx);
+void verif_do_detach(void);
+void verif_do_pidfile(char *file);
+int verif_open_tun(const char *dev);
+void verif_close_tun(int fd);
+int verif_client_handshake_stub(int dns_fd, int raw_mode, int autodetect_frag_size, int fragsize);
+int verif_client_tunnel_stub(int tun_fd, int dns_fd);
+#define getopt(a, b, c) verif_getopt(a, b, c)
+#define getenv(x) verif_getenv(x)
+#define getpwnam(x) verif_getpwnam(x)
+#define setgroups(a, b) verif_setgroups(a, b)
+#define setgid(x) verif_setgid(x)
+#define setuid(x) verif_setuid(x)
+#define signal(a, b) ((void) (b))
+#define check_superuser verif_check_superuser
+#define get_resolvconf_addr verif_get_resolvconf_addr
+#define get_addr verif_get_addr
+#define open_dns_from_host verif_open_dns_from_host
+#define close_dns verif_close_dns
+#define do_chroot verif_do_chroot
+#define do_setcon verif_do_setcon
+#define do_detach verif_do_detach
+#define do_pidfile verif_do_pidfile
+#define open_tun verif_open_tun
+#define close_tun verif_close_tun
+#define client_handshake verif_client_handshake_stub
+#define client_tunnel verif_client_tunnel_stub
+#define main iodine_main
+#include "iodine.c"
+#undef main
+#undef getopt
+#undef getenv
+#undef getpwnam
+#undef setgroups
+#undef setgid
+#undef setuid
+#undef signal
+#undef check_superuser
+#undef get_resolvconf_addr
+#undef get_addr
+#undef open_dns_from_host
+#undef close_dns
+#undef do_chroot
+#undef do_setcon
+#undef do_detach
+#undef do_pidfile
+#undef open_tun
+#undef close_tun
+#undef client_handshake
+#undef client_tunnel
+
 #undef errx
 #undef err
 #undef warnx
@@ -71,8 +145,30 @@ int verif_rand(void) { return randq_i < randq_n ? randq[randq_i++] : 0; }
 void verif_srand(unsigned s) { (void) s; }
 void verif_syslog(int pri, const char *fmt, ...) { (void) pri; (void) fmt; }
 unsigned verif_sleep(unsigned s) { vnow += s; return 0; }
-int verif_fprintf(FILE *f, const char *fmt, ...) { (void) f; (void) fmt; return 0; }
-void verif_warnx(const char *fmt, ...) { (void) fmt; }
+static int mm;			/* op `main` is running (on the main thread) */
+static jmp_buf mm_jb;
+static int mm_code;
+static const char *mm_kind, *mm_tag, *mm_ftag;
+int verif_fprintf(FILE *f, const char *fmt, ...)
+{
+	(void) f;
+	if (!mm) return 0;
+	if (strstr(fmt, "Git version")) mm_ftag = "version";
+	else if (strstr(fmt, "Options to try")) mm_ftag = "help";
+	else if (strstr(fmt, "Usage: ")) mm_ftag = "usage";
+	return 0;
+}
+static const char *mm_class(const char *fmt)
+{
+	static const struct { const char *key, *tag; } tab[] = {
+		{ "Use a max frag size", "fragsize" }, { "No nameserver found", "nons" }, { "Invalid topdomain", "topdomain" },
+		{ "does not exist", "nouser" }, { "Could not switch", "setuid" }, { "Invalid query type", "qtype" },
+		{ "Cannot lookup nameserver", "lookup" }, { NULL, NULL } };
+	int i;
+	for (i = 0; tab[i].key; i++) if (strstr(fmt, tab[i].key)) return tab[i].tag;
+	return "other";
+}
+void verif_warnx(const char *fmt, ...) { if (mm) mm_tag = mm_class(fmt); }
 ssize_t verif_recvmsg(int fd, struct msghdr *msg, int flags) { (void) fd; (void) msg; (void) flags; return -1; }
 
 int verif_compress2(Bytef *dest, uLongf *destLen, const Bytef *source, uLong sourceLen, int level)
@@ -150,6 +246,7 @@ static void worker_finish(void)
 void verif_exit(int code)
 {
 	char b[32];
+	if (mm) { mm_kind = "exit"; mm_code = code; longjmp(mm_jb, 1); }
 	snprintf(b, sizeof(b), "exit %d", code);
 	ev_begin(b);
 	worker_finish();
@@ -158,7 +255,7 @@ void verif_exit(int code)
 void verif_errx(int code, const char *fmt, ...)
 {
 	char b[32];
-	(void) fmt;
+	if (mm) { mm_kind = "errx"; mm_code = code; mm_tag = mm_class(fmt); longjmp(mm_jb, 1); }
 	snprintf(b, sizeof(b), "errx %d", code);
 	ev_begin(b);
 	worker_finish();
@@ -433,11 +530,201 @@ static void feed(int kind, unsigned char *data, size_t len)
 
 static char td_buf[512], pw_buf[128];
 
+/* ------------------------------------------------------------------ op `main`: the real main() of iodine.c up to client_handshake()
+ * main [E=<hex IODINE_PASS>] [T=<hex typed at the prompt>] [RC=<hex nameserver of resolv.conf>] [HS=<return value of the handshake>] <hex argv0> ...
+ * answer: `exit <code> <class>` | `errx <code> <class>` | `ret <code>` | `run <code>`, ` | ev <substituted calls in order>`, for `run`: ` | <digest of client.c's statics when client_handshake() is called>` */
+static int mm_getopt_err, mm_hs_ret;
+static char *mm_env_pass, *mm_typed, *mm_resolv;
+static char mm_evbuf[16384], mm_digest[2048];
+static size_t mm_evlen;
+static struct passwd mm_pw;
+
+static void mm_ev(const char *fmt, ...)
+{
+	va_list ap;
+	int n;
+	if (mm_evlen + 2 >= sizeof(mm_evbuf)) return;
+	mm_evbuf[mm_evlen++] = ' ';
+	va_start(ap, fmt);
+	n = vsnprintf(mm_evbuf + mm_evlen, sizeof(mm_evbuf) - mm_evlen, fmt, ap);
+	va_end(ap);
+	if (n > 0) mm_evlen += (size_t) n < sizeof(mm_evbuf) - mm_evlen ? (size_t) n : sizeof(mm_evbuf) - mm_evlen - 1;
+}
+static const char *mm_hs(const char *s)
+{
+	static char b[4][2100];
+	static int k;
+	char *o = b[k = (k + 1) & 3];
+	size_t i, n;
+	if (!s) return "null";
+	n = strlen(s);
+	if (n == 0) return "-";
+	if (n > 1000) n = 1000;
+	for (i = 0; i < n; i++) sprintf(o + 2 * i, "%02x", (unsigned char) s[i]);
+	return o;
+}
+int verif_getopt(int argc, char *const argv[], const char *optstring)
+{
+	int r = getopt(argc, argv, optstring);
+	mm_getopt_err = (r != -1);		/* an exit while this is set comes from inside the option loop */
+	return r;
+}
+char *verif_getenv(const char *name)
+{
+	if (mm) return !strcmp(name, "IODINE_PASS") ? mm_env_pass : NULL;
+	return getenv(name);
+}
+struct passwd *verif_getpwnam(const char *name)
+{
+	if (name[0] == '!') return NULL;
+	memset(&mm_pw, 0, sizeof(mm_pw));
+	mm_pw.pw_uid = name[0] == '~' ? 1001 : 1000;
+	mm_pw.pw_gid = 1000;
+	return &mm_pw;
+}
+int verif_setgroups(size_t n, const gid_t *g) { (void) n; (void) g; return 0; }
+int verif_setgid(gid_t g) { (void) g; return 0; }
+int verif_setuid(uid_t u) { mm_ev("setuid:%u", (unsigned) u); return u == 1001 ? -1 : 0; }
+void verif_check_superuser(void) { }
+char *verif_get_resolvconf_addr(void) { mm_ev("resolvconf"); return mm_resolv; }
+int verif_fscanf(FILE *f, const char *fmt, ...)
+{
+	va_list ap;
+	char *dst;
+	size_t n = 0;
+	(void) f;
+	if (!mm || strcmp(fmt, "%79[^\n]")) abort();
+	mm_ev("prompt");
+	va_start(ap, fmt);
+	dst = va_arg(ap, char *);
+	va_end(ap);
+	while (mm_typed && mm_typed[n] && mm_typed[n] != '\n' && n < 79) n++;
+	if (n == 0) return mm_typed && mm_typed[0] ? 0 : EOF;
+	memcpy(dst, mm_typed, n);
+	dst[n] = 0;
+	return 1;
+}
+int verif_tcgetattr(int fd, struct termios *t) { (void) fd; memset(t, 0, sizeof(*t)); return 0; }
+int verif_tcsetattr(int fd, int act, const struct termios *t) { (void) fd; (void) act; (void) t; return 0; }
+int verif_get_addr(char *host, int port, int family, int flags, struct sockaddr_storage *out)
+{
+	mm_ev("ga:%d:%s:%d:%d", family == AF_INET6 ? 6 : family == AF_INET ? 4 : 0, mm_hs(host), port, flags);
+	memset(out, 0, sizeof(*out));
+	if (family == AF_INET6) {
+		struct sockaddr_in6 *a = (struct sockaddr_in6 *) out;
+		if (host && host[0] == '!') return -1;
+		a->sin6_family = AF_INET6;
+		a->sin6_port = htons((unsigned short) port);
+		return sizeof(*a);
+	} else {
+		struct sockaddr_in *a = (struct sockaddr_in *) out;
+		a->sin_family = AF_INET;
+		a->sin_port = htons((unsigned short) port);
+		if (!host) a->sin_addr.s_addr = htonl(INADDR_ANY);
+		else if (inet_pton(AF_INET, host, &a->sin_addr) != 1) {
+			if (host[0] == '!' || host[0] == 0) return -1;
+			a->sin_addr.s_addr = htonl(0xc6336435);	/* any other name "resolves" to 198.51.100.53 */
+		}
+		return sizeof(*a);
+	}
+}
+int verif_open_dns_from_host(char *host, int port, int family, int flags)
+{
+	mm_ev("odh:%s:%d:%d:%d", mm_hs(host), port, family == AF_INET6 ? 6 : 4, flags);
+	return DNS_FD;
+}
+void verif_close_dns(int fd) { mm_ev("cd:%d", fd); }
+void verif_do_chroot(char *dir) { mm_ev("chroot:%s", mm_hs(dir)); }
+void verif_do_setcon(char *ctx) { mm_ev("setcon:%s", mm_hs(ctx)); }
+void verif_do_detach(void) { mm_ev("detach"); }
+void verif_do_pidfile(char *file) { mm_ev("pidfile:%s", mm_hs(file)); }
+int verif_open_tun(const char *dev) { mm_ev("tun:%s", mm_hs(dev)); return dev && dev[0] == '!' ? -1 : TUN_FD; }
+void verif_close_tun(int fd) { mm_ev("ct:%d", fd); }
+int verif_client_handshake_stub(int dns_fd, int raw_mode, int autodetect_frag_size, int fragsize)
+{
+	char pwh[80];
+	int i;
+	struct sockaddr_in *a = (struct sockaddr_in *) &nameserv;
+	mm_ev("hs:%d:%d:%d:%d", dns_fd, raw_mode, autodetect_frag_size, fragsize);
+	/* client_set_password() stored a pointer to main()'s 33-byte array */
+	for (i = 0; i < 33; i++) sprintf(pwh + 2 * i, "%02x", password ? (unsigned char) password[i] : 0);
+	snprintf(mm_digest, sizeof(mm_digest), "pw=%s td=%s ml=%d qt=%u dn=%d sel=%d lazy=%d nsl=%d nsf=%d nsip=%08x nsport=%u conn=%d run=%d rs=%u cid=%u",
+		 pwh, mm_hs(topdomain), hostname_maxlen, (unsigned) do_qtype, (int) downenc, selecttimeout, lazymode, nameserv_len,
+		 nameserv.ss_family == AF_INET6 ? 6 : nameserv.ss_family == AF_INET ? 4 : 0,
+		 nameserv.ss_family == AF_INET ? (unsigned) ntohl(a->sin_addr.s_addr) : 0u, (unsigned) ntohs(a->sin_port),
+		 (int) conn, running, (unsigned) rand_seed, (unsigned) chunkid);
+	return mm_hs_ret;
+}
+int verif_client_tunnel_stub(int tun_fd, int dns_fd) { mm_ev("tunnel:%d:%d", tun_fd, dns_fd); return 0; }
+
+static void op_main(char **tok, int ntok)
+{
+	static char *args[70], *keep[70];
+	static int argc, rv, exited;
+	int i;
+	size_t n;
+	unsigned char *b;
+	kill_worker();
+	free(mm_env_pass); free(mm_typed); free(mm_resolv);
+	mm_env_pass = mm_typed = mm_resolv = NULL;
+	mm_hs_ret = 0;
+	argc = 0;
+	for (i = 1; i < ntok; i++) {
+		if (!strncmp(tok[i], "E=", 2) || !strncmp(tok[i], "T=", 2) || !strncmp(tok[i], "RC=", 3)) {
+			char *z;
+			const char *v = strchr(tok[i], '=') + 1;
+			b = hex_alloc(v, &n);
+			if (!b) { puts("bad-op"); return; }
+			z = xmalloc(n + 1);
+			memcpy(z, b, n); z[n] = 0; free(b);
+			if (tok[i][0] == 'E') mm_env_pass = z; else if (tok[i][0] == 'T') mm_typed = z; else mm_resolv = z;
+		} else if (!strncmp(tok[i], "HS=", 3)) mm_hs_ret = atoi(tok[i] + 3);
+		else {
+			b = hex_alloc(tok[i], &n);
+			if (!b || argc >= 64) { puts("bad-op"); return; }
+			args[argc] = xmalloc(n + 1);
+			memcpy(args[argc], b, n); args[argc][n] = 0; free(b);
+			keep[argc] = args[argc];
+			argc++;
+		}
+	}
+	if (argc < 1) { puts("bad-op"); return; }
+	args[argc] = NULL;
+	/* client.c's statics as the loader leaves them */
+	topdomain = NULL; password = NULL;
+	do_qtype = T_UNSET; downenc = ' ';
+	selecttimeout = 0; lazymode = 0; hostname_maxlen = 0xFF;
+	memset(&nameserv, 0, sizeof(nameserv)); nameserv_len = 0;
+	conn = 0; running = 0; rand_seed = 0; chunkid = 0;
+	vnow = 1000; randq_n = randq_i = 0;
+	optind = 0; opterr = 0;
+	mm_evlen = 0; mm_evbuf[0] = 0; mm_digest[0] = 0;
+	mm_tag = mm_ftag = mm_kind = NULL;
+	mm_getopt_err = 0;
+	mm = 1;
+	exited = 0;
+	if (!setjmp(mm_jb)) rv = iodine_main(argc, args);
+	else exited = 1;
+	mm = 0;
+	if (exited && !strcmp(mm_kind, "errx")) printf("errx %d %s", mm_code, mm_tag ? mm_tag : "other");
+	else if (exited) {
+		const char *f = mm_ftag ? mm_ftag : "none";
+		if (!strcmp(f, "usage")) printf("exit %d usage:%s", mm_code, mm_tag ? mm_tag : mm_getopt_err ? "getopt" : "argc");
+		else printf("exit %d %s", mm_code, f);
+	} else if (!mm_digest[0]) printf("ret %d", rv);
+	else printf("run %d", rv);
+	printf(" | ev%s", mm_evlen ? mm_evbuf : " -");
+	if (mm_digest[0]) printf(" | %s", mm_digest);
+	putchar('\n');
+	for (i = 0; i < argc; i++) free(keep[i]);
+	topdomain = NULL; password = NULL;
+}
+
 int main(void)
 {
 	char *line = NULL;
 	size_t cap = 0;
-	char *tok[16];
+	char *tok[80];
 	int ntok;
 	const char *z = getenv("VERIF_Z");
 	struct sockaddr_in ns;
@@ -455,7 +742,7 @@ int main(void)
 	ns.sin_port = htons(53);
 
 	while (getline(&line, &cap, stdin) > 0) {
-		ntok = split(line, tok, 16);
+		ntok = split(line, tok, 80);
 		if (ntok == 0) { puts("bad-op"); continue; }
 		if (!strcmp(tok[0], "ccfg") && ntok == 11) {
 			size_t n;
@@ -491,6 +778,7 @@ int main(void)
 			raw_serv_len = sizeof(ns);
 			puts("ok");
 		}
+		else if (!strcmp(tok[0], "main")) op_main(tok, ntok);
 		else if (!strcmp(tok[0], "cenc") && ntok == 2) {
 			dataenc = !strcmp(tok[1], "b64") ? &base64_ops : !strcmp(tok[1], "b64u") ? &base64u_ops : !strcmp(tok[1], "b128") ? &base128_ops : &base32_ops;
 			puts("ok");
